@@ -59,6 +59,7 @@ class LoopState:
         self.mod_ids = set()
         self.serial0 = 0
         self.is_for = False
+        self.nseen = None  # ghost: number of elements already iterated (for-loops)
 
     def seen_has(self, t):
         return self.seen[t]
@@ -142,6 +143,7 @@ class VC:
         env = dict(env)
         if st.is_for:
             st.seen = z3.K(st.coll.sort, False)
+            st.nseen = z3.IntVal(0)
         for cl in spec.inv(env, st):
             C.check(cl[1], f"{self.fn_name}.loop{k}.entry.{cl[0]}", cl[2] if len(cl) > 2 else (), kind="inv")
         mods = list(spec.modifies(env))
@@ -152,16 +154,22 @@ class VC:
         missing = set(spec.carried) - set(new)
         if missing:
             raise ContractBindError(f"loop {k}: rebind() does not provide {sorted(missing)}")
-        st.mod_ids = {id(p) for p in mods}
+        st.mod_ids = {id(p) for p in mods} | {id(q) for p in mods for q in (p._vc_parts() if hasattr(p, "_vc_parts") else ())}
         spec.ghost_havoc(env, st)
         env.update(new)
         if st.is_for:
             st.seen = C.fresh("seen", sym.SetSort(st.coll.sort))
             v = bv("v!l", st.coll.sort)
             C.assume(z3.ForAll([v], z3.Implies(st.seen[v], st.coll.pred(v))))
+            # loop rule (trusted): the ghost counter of iterations done; over n distinct elements: 0 <= nseen <= n
+            st.nseen = C.fresh("nseen", sym.I)
+            C.assume(st.nseen >= 0)
+            if st.coll.count is not None and st.coll.distinct:
+                C.assume(st.nseen <= st.coll.count)
         for cl in spec.inv(env, st):
             C.assume(cl[1])
         st.var0 = spec.variant(env, st)
+        st.local_ok_ids = {nm: id(env[nm]) for nm in getattr(spec, "local_ok", ()) if nm in env}
         C.mutated = {}
         C.label(f"L{k}")
         return tuple(new[c] for c in spec.carried)
@@ -171,7 +179,14 @@ class VC:
         st.cur = C.fresh("cur", st.coll.sort)
         v = bv("v!l", st.coll.sort)
         done = z3.ForAll([v], z3.Implies(st.coll.pred(v), st.seen[v]))
-        return C.fork(z3.And(st.coll.pred(st.cur), z3.Not(st.seen[st.cur])), f"loop{k} has next", else_assume=done)
+        counted = st.coll.count is not None and st.coll.distinct
+        if counted:
+            # n distinct elements are exhausted after exactly n iterations
+            done = z3.And(done, st.nseen == st.coll.count)
+        more = C.fork(z3.And(st.coll.pred(st.cur), z3.Not(st.seen[st.cur])), f"loop{k} has next", else_assume=done)
+        if more and counted:
+            C.assume(st.nseen < st.coll.count)
+        return more
 
     def for_pick(self, k):
         st = C.loop_states[k]
@@ -182,12 +197,16 @@ class VC:
         st = C.loop_states[k]
         if st.is_for:
             st.seen = z3.Store(st.seen, st.cur, True)
+            st.nseen = st.nseen + 1
         for cl in spec.inv(env, st):
             C.check(cl[1], f"{self.fn_name}.loop{k}.preserved.{cl[0]}", cl[2] if len(cl) > 2 else (), kind="inv")
         v1 = spec.variant(env, st)
         if v1 is not None:
             C.check(v1 < st.var0, f"{self.fn_name}.loop{k}.variant_decreases", spec.variant_serves, kind="variant")
             C.check(v1 >= 0, f"{self.fn_name}.loop{k}.variant_bounded", spec.variant_serves, kind="variant")
+        for nm, oid in st.local_ok_ids.items():
+            if nm in env and id(env[nm]) != oid and isinstance(env[nm], (Sym, int, bool)):
+                raise ContractBindError(f"loop {k} of {self.fn_name} re-binds '{nm}', which the loop contract treats as mutated in place")
         carried_ids = {id(env[c]) for c in spec.carried if c in env}
         for pid, p in C.mutated.items():
             if pid in st.mod_ids or pid in carried_ids:
